@@ -61,14 +61,16 @@ func preflight() {
 
 func TestMain(m *testing.M) {
 	run = vk.Start("C10", "exploration")
-	run.Rule("alloc/dealloc histories against a fresh nat.Manager+nat.Logger per history: every sequence of the stated depth over <=6 subscribers (up to subscriber renaming) for each (port range, block size, #public addresses) configuration, seeded random walks of 100-1000 ops over up to 140 subscribers with lookups/stats/flushes/virtual-time jumps, and concurrent histories (allocate-only, mixed with one driver per subscriber, several callers racing on the same private address) under -race; non-trivial = distinct sequential history in which a block was released while a higher block on the same public address was live and a later allocation succeeded on that address (release-from-the-middle then allocate), or a concurrent history with >=2 overlapping calls")
+	run.Rule("alloc/dealloc histories against a fresh nat.Manager+nat.Logger per history: every sequence of the stated depth over <=6 subscribers (up to subscriber renaming) for each (port range, block size, #public addresses) configuration, seeded random walks of 100-1000 ops over up to 140 subscribers with lookups/stats/flushes/virtual-time jumps, and concurrent histories (allocate-only, mixed with one driver per subscriber, several callers racing on the same private address) under -race; non-trivial = distinct sequential history in which a block was released while a higher block on the same public address was live and a later allocation succeeded on that address (release-from-the-middle then allocate), or a concurrent history with >=2 overlapping calls; map-fault histories: the manager on real kernel hash maps (VerifSetMaps) with a write fault (table filled with foreign keys until the kernel refuses an insert / read-only handle of the same table) switched on and off between operations at subscriber_nat (Put of AllocateNAT, Delete of DeallocateNAT), hairpin_ips (AddPublicIP) and alg_ports (ConfigureALG): every history of the stated depth over {alloc, dealloc, fault-on(full), fault-on(read-only), fault-off} for <=3 subscribers, 1-2 public addresses and pools of 1/2/3/64 blocks, plus seeded random histories over all fault kinds; non-trivial there = a refused subscriber_nat Put followed by a successful new allocation on a public address that had a free block at the refusal")
 	run.Assume("a subscriber is identified by its private IPv4 address (the key of AllocateNAT/DeallocateNAT); the log reader may use the configured block size but no manager state; blocks are inclusive [PortStart, PortEnd]")
+	run.Assume("map-fault histories: the kernel table is read with the manager's own key encoding (its byte order against nat44.c is C06's subject); a subscriber_nat entry that stays behind a release whose Delete the kernel refused is reported only once it overlaps what another subscriber holds")
 	run.Assume("the nat.Logger is attached with Manager.SetLogger and writes JSON; other formats and file rotation are not judged")
 	// floors: far below what the quick tier observes; falling under them means the harness could not judge
 	for k, n := range map[string]int64{
 		"op_alloc_new": 20000, "op_dealloc_held": 10000, "allocations_after_middle_release": 2000,
 		"attribution_probes_in_order": 500000, "attribution_probes_by_time": 1000000, "instants_judged_by_time": 50000,
 		"log_port_block_assign": 10000, "log_allocate": 10000, "log_port_block_release": 4000, "log_deallocate": 4000,
+		"fault_histories": 20000, "fault_position_x_operation_pairs_reached": 8, "fault_histories_refused_put_then_allocation_same_public_ip": 2000, "fault_histories_refused_put_then_allocation_to_other_subscriber_same_public_ip": 1200, "fault_histories_with_refused_delete": 1000, "fault_dataplane_pairs_judged_disjoint": 20000,
 		"concurrent_ops": 5000, "overlapping_calls": 500, "same_ip_racing_alloc_pairs": 50, "porcupine_checks": 100,
 	} {
 		if !child {
@@ -82,6 +84,7 @@ func TestMain(m *testing.M) {
 	}
 	code := m.Run()
 	run.JudgeRaces(anchored)
+	faultTeardown()
 	ec := run.Finish()
 	if code != 0 && ec == 0 {
 		ec = 2
